@@ -320,6 +320,8 @@ def narrow_int_cases(rec, hub, rng, n_cases):
                 v.reshape(-1)[int(rng.integers(0, v.size))] = np.uint64(2**63 + int(rng.integers(1, 10**6)))
         else:
             v = rng.integers(max(1, (2 * top) // 3), top + 1, size=shape).astype(dt)  # any two of them exceed the range
+            if dt in (np.int16, np.int32) and rng.random() < 0.5:
+                v = v.astype(v.dtype.newbyteorder())  # the same numbers in the other byte order
         true = np.asarray(v, dtype=object).astype(object) if dt is not np.bool_ else np.asarray(v, dtype=int).astype(object)
         true = np.vectorize(int, otypes=[object])(np.asarray(v)) if v.size else true
 
